@@ -80,12 +80,27 @@ def _judge_lenient(item):
 _G = {}
 
 
+def _lookalikes(s):
+    """Spellings that a normalising parser would confuse with s: they are parsed FIRST, so that what s means does not depend
+    on which strings were seen before (a memo keyed by a normalised string; the order is part of the case and reproducible)."""
+    out = []
+    for t in (s.swapcase(), s.lower(), s.upper(), ' ' + s, s + ' ', s.replace(' ', '  ')):
+        if t != s and t not in out:
+            out.append(t)
+    return out
+
+
 def _judge_quantity(s):
     pp = env.load()
     try:
         want = ref.parse_quantity(s)
     except ValueError:
         want = None
+    for t in _lookalikes(s):
+        try:
+            pp.Unit.parse_quantity(t)
+        except Exception:  # noqa
+            pass
     try:
         got = pp.Unit.parse_quantity(s)
     except Exception as e:  # noqa
@@ -108,6 +123,11 @@ def _judge_concentration(s):
     pp = env.load()
     wv = pp.config.default_weight_volume_units
     want = ref.parse_concentration(s, wv)
+    for t in _lookalikes(s):
+        try:
+            pp.Unit.parse_concentration(t)
+        except Exception:  # noqa
+            pass
     try:
         got = pp.Unit.parse_concentration(s)
     except Exception as e:  # noqa
@@ -138,6 +158,30 @@ def _judge_malformed(item):
     return V(f"Unit.parse_{which} | accepted-malformed | {'non-string' if not isinstance(s, str) else 'string'}",
              f"parse_{which}({s!r}) must be rejected but returned {got!r}", {'parser': which + '-malformed', 's': repr(s)},
              'error', list(got) if isinstance(got, tuple) else repr(got))
+
+
+def _judge_malformed_api(s):
+    """A malformed quantity string is refused wherever a quantity is expected, not only by the parser."""
+    pp = env.load()
+    subs = e1.substances(pp, 0)
+    water = subs['water']
+    C = pp.Container
+    stock = C('stock', initial_contents=[(water, '50 mL')])
+    out = []
+    for label, call in (('Unit.convert', lambda: pp.Unit.convert(water, s, 'mL')),
+                        ('Container()', lambda: C('x', initial_contents=[(water, s)])),
+                        ('Container(max_volume)', lambda: C('x', s)),
+                        ('Container.transfer', lambda: C.transfer(stock, C('d'), s)),
+                        ('Container.fill_to', lambda: stock.fill_to(water, s)),
+                        ('Plate(max_volume_per_well)', lambda: pp.Plate('p', s))):
+        try:
+            call()
+        except Exception:  # noqa
+            continue
+        out.append(V(f"{label} | accepted-malformed | quantity-string",
+                     f"{label} accepted the malformed quantity {s!r} (Unit.parse_quantity refuses it)",
+                     {'parser': 'quantity-malformed-api', 's': repr(s)}, 'error', 'returned'))
+    return out
 
 
 # ---- equivalent spellings are interchangeable through the API --------------------------------------------------------
@@ -336,6 +380,10 @@ def run(col):
     res = [_judge_malformed(i) for i in items] + [_judge_lenient(i) for i in LENIENT]
     col.add([v for v in res if v])
     n += len(items) + len(LENIENT)
+    api_strings = [x for x in mq if isinstance(x, str)] + ['1,000 uL', '2,5 mL', '0,5 g', '10 mL ', ' 10 mL', '10 ml', '1e3,0 uL']
+    for x in api_strings:
+        col.add(_judge_malformed_api(x))
+    n += 6 * len(api_strings)
     ev, k = equivalence(pp)
     col.add(ev)
     n += k
@@ -361,6 +409,9 @@ def replay(case):
             return r['violations']
         v = _judge_concentration(case['s'])
         return [v] if v else []
+    if case['parser'] == 'quantity-malformed-api':
+        import ast
+        return _judge_malformed_api(ast.literal_eval(case['s']))
     if case['parser'].endswith('-malformed'):
         mq, mc, non = malformed()
         vs = []
